@@ -148,7 +148,7 @@ type stepAbort struct{ reason string }
 func newExec(tr *Trace, known map[string]bool) *Exec {
 	e := &Exec{tr: tr, prop: tr.Prop, or: propOracles[tr.Prop], st: newRunStats(), known: known, lim: art.VerifMaxPrefixLen}
 	for _, c := range tr.Trees {
-		ts := &treeState{cfg: c, api: newTree(c.Key, c.Val, c.SpareCodec, c.Codec == "own"), m: newModel(c.Key), noID: !valHasID(c.Val)}
+		ts := &treeState{cfg: c, api: newTree(c.Key, c.Val, c.SpareCodec, c.Codec), m: newModel(c.Key), noID: !valHasID(c.Val)}
 		e.trees = append(e.trees, ts)
 	}
 	return e
@@ -974,6 +974,22 @@ func (e *Exec) checkAbandon(i int, s *Step, ts *treeState, seq SeqFn, full []pai
 	again := collectSeq(seq)
 	if !pairsEqual(again, full) {
 		return e.viol("wrong-result", "C14-reiterate", i, "tree %d (%s): ranging again over the same %s(%x,%x,n=%d) sequence yielded %d element(s); the first complete pass yielded %d", s.T, ts.cfg.Key, s.Op, []byte(s.K), []byte(s.K2), s.N, len(again), n)
+	}
+	// the same sequence value ranged over again while a pass over it is still in
+	// progress (a nested loop): both passes must deliver the full result
+	if n >= 2 {
+		var outer, inner []pair
+		seq(func(k []byte, id uint64, vok bool) bool {
+			outer = append(outer, pair{k, id, vok})
+			if len(outer) == 1+n/2 {
+				inner = collectSeq(seq)
+			}
+			return true
+		})
+		e.st.Probes["nested_passes"]++
+		if !pairsEqual(inner, full) || !pairsEqual(outer, full) {
+			return e.viol("wrong-result", "C14-nested-reiterate", i, "tree %d (%s): ranging over the same %s(%x,%x,n=%d) sequence again from inside a pass over it: the outer pass delivered %d element(s), the inner %d; a complete pass has %d", s.T, ts.cfg.Key, s.Op, []byte(s.K), []byte(s.K2), s.N, len(outer), len(inner), n)
+		}
 	}
 	// "with the tree unchanged": other read-only calls in between change nothing,
 	// so the same sequence value must still yield the same result after them
